@@ -241,6 +241,34 @@ def run(ctx):
                                    "correspondence": "PV.Compress.rstep vs ReadStream::Read"}, no_input=True,
                                    summary=f"reader trace not accepted by the controller model (or the codec made no progress): {r[:150]}")
             break
+    # ---------------- truncation seen through the line reader of a tool (FilePiece turns one kind of exception into "end of
+    # input"): a truncated stream on stdin, as a regular file and as a pipe, must make the tool exit non-zero
+    text = b"".join(b"line %d of the text that is compressed and then cut\n" % i for i in range(4000))
+    for fmt in ("gz", "bz2", "xz"):
+        blob = enc[fmt](text)
+        cuts = sorted(set([12, len(blob) // 3, len(blob) // 2, len(blob) - 9, len(blob) - 1] + [rng.randrange(7, len(blob)) for _ in range(3 if ctx.tier == "quick" else 40)]))
+        for k in cuts:
+            for how in ("file", "pipe"):
+                f = os.path.join(ctx.tmp, "trunc." + fmt)
+                open(f, "wb").write(blob[:k])
+                if how == "file":
+                    st, out, err = pvlib.run_tool([ctx.bin("remove_long_lines"), "1000000"], env=pvlib.san_env(), stdin_file=f, timeout=60)
+                else:
+                    st, out, err = pvlib.run_tool([ctx.bin("remove_long_lines"), "1000000"], blob[:k], env=pvlib.san_env(), timeout=60)
+                ctx.count("tool.truncated", 1, [(fmt, k, how)])
+                if st == 0 or st == "HANG":
+                    pvlib.report_violation(ctx, f"ztool-trunc:{fmt}:{k}:{how}", {"argv": ["remove_long_lines", "1000000"], "stdin_hex": hx(blob[:k])[:40000], "stdin": how,
+                                           "format": fmt, "truncated_at": k, "of": len(blob), "status": st, "lines_out": out.count(b"\n"), "lines_in_full_stream": 4000},
+                                           summary=f"remove_long_lines on a {fmt} stream truncated at byte {k} of {len(blob)} (stdin: {how}): "
+                                                   f"{'hang' if st == 'HANG' else 'exit status 0'} with {out.count(10)} of 4000 lines written")
+                    break
+    # ---------------- GZCompress, bulk: semi-compressible bodies of 30..200 kB (warc_parallel -z compresses every record with it)
+    gzr = pvlib.run_lines(impl, [f"z.gzcompressrand {ctx.seed} {1500 if ctx.tier == 'quick' else 20000} 30000 200000"], env=pvlib.san_env(), timeout=3000, per_line_timeout=3000, stall=3000)[0]
+    ctx.count("z.gzcompressrand", 1, [gzr[:40]])
+    ctx.cov["gzcompress_bulk"] = gzr[:80]
+    if not gzr.startswith("ok "):
+        pvlib.report_violation(ctx, "zgzcompress-bulk", {"ops": [f"z.gzcompressrand {ctx.seed} 1500 30000 200000"], "impl": gzr[:400]},
+                               summary=f"GZCompress on pseudo-random text bodies: {gzr[:300]}")
     # ---------------- GZCompress
     gops, gdata = [], []
     for n in [0, 1, 2, 100, 4000, 4090, 4096, 5000, 70000] + [rng.randrange(0, 70000) for _ in range(10 if ctx.tier == "quick" else 100)]:
